@@ -269,6 +269,24 @@ def f_status( ctx ):
             return { ast.Eq: same, ast.NotEq: not same, ast.Lt: ( not same ) if dotted( e.left ) == END else False, ast.GtE: same if dotted( e.left ) == END else True,
                      ast.LtE: True if dotted( e.left ) == END else same, ast.Gt: False if dotted( e.left ) == END else ( not same ) }[type( op )]
         raise KeyError( norm_text( e ))
+    # for fixed-size elements the reply is rounded outwards to whole elements and may exceed the budget by part of an element: completion
+    # must therefore not depend on the byte budget / offset remainder (that criterion is valid for the STRUCT byte-trimming branch only)
+    def budget_dependent( e, depth=0 ):
+        for n_ in ast.walk( e ):
+            if isinstance( n_, ast.Name ):
+                if n_.id in ( OFFREM, MAXSIZE ):
+                    return n_.id
+                if depth < 4:
+                    for d_ in non_struct_def( n_.id ):
+                        r_ = budget_dependent( d_, depth + 1 )
+                        if r_:
+                            return r_
+        return None
+    dep = budget_dependent( sts[0].value )
+    if dep:
+        res.bad( src, sts[0], 'read status of fixed-size elements depends on %s' % dep,
+                 'a fragment of fixed-size elements is rounded up to whole elements and may legitimately exceed the byte budget; deciding completion from byte counts makes the final fragment report 0x06 although all requested elements were delivered - the transfer never ends with 0x00' )
+        return res
     try:
         done, more = ev( sts[0].value, True ), ev( sts[0].value, False )
     except KeyError as exc:
